@@ -2,7 +2,7 @@ import OrbitModel.Proofs.AddressClean
 /-!
 # Strings and segments: `strings.Split`/`strings.Join` on "/" and `address.Parse` of a rendered path  (C14)
 
-`segments` splits the list of characters, so the core lemmas on `List.splitOn` apply; `parse` of a
+`segments` splits the list of characters, so the core lemmas on `List.splitOn` apply; `parse0` of a
 rendered clean path is characterised in both directions (`parse_render_root`, `parse_render`).
 -/
 namespace Orbit.Path
@@ -125,14 +125,14 @@ theorem drop_orbitdb (t : String) : (("/orbitdb/" ++ t).drop "/orbitdb/".length)
   exact (String.toList_inj.mp (List.append_cancel_left h2)).symm
 
 theorem parse_eq (isCid : String → Bool) (s : String) :
-    parse isCid s =
+    parse0 isCid s =
       match segments (if hasPrefix "/orbitdb/" s then (s.drop "/orbitdb/".length).copy else s) with
       | [] => none
       | r :: rest => if isCid r then some { root := r, path := "/".intercalate rest } else none := rfl
 
 /-- parsing `/orbitdb/<t>` looks at the segments of `t` -/
 theorem parse_orbitdb (isCid : String → Bool) (t : String) :
-    parse isCid ("/orbitdb/" ++ t) =
+    parse0 isCid ("/orbitdb/" ++ t) =
       match segments t with
       | [] => none
       | r :: rest => if isCid r then some { root := r, path := "/".intercalate rest } else none := by
@@ -147,14 +147,14 @@ theorem render_orbitdb (l : List String) (hne : l ≠ []) :
 /-- **`Parse` of a rendered `/orbitdb/<root>/<rest…>`** -/
 theorem parse_render_root (isCid : String → Bool) (r : String) (rest : List String)
     (h : ∀ x ∈ r :: rest, NoSlash x) (hc : isCid r = true) :
-    parse isCid (render ("orbitdb" :: r :: rest)) = some { root := r, path := "/".intercalate rest } := by
+    parse0 isCid (render ("orbitdb" :: r :: rest)) = some { root := r, path := "/".intercalate rest } := by
   rw [render_orbitdb _ (by simp), parse_orbitdb, segments_intercalate _ h (by simp)]
   simp only [hc, if_true]
 
 /-- **`Parse` of any rendered clean path**: it answers either the empty root (the path does not
 start with `/orbitdb/<x>`) or the second segment as root and the others as path -/
 theorem parse_render (isCid : String → Bool) (cl : List String) (h : ∀ x ∈ cl, NoSlash x) (a : Addr)
-    (hp : parse isCid (render cl) = some a) :
+    (hp : parse0 isCid (render cl) = some a) :
     a.root = "" ∨ ∃ rest, cl = "orbitdb" :: a.root :: rest ∧ a.path = "/".intercalate rest ∧
       isCid a.root = true := by
   have hseg : segments (render cl) = "" :: segments ("/".intercalate cl) := segments_slash_append _
